@@ -41,10 +41,10 @@ Step(ev) ==
   \/ /\ ev.a = "create"
      /\ (IF ev.ok THEN IoCreate(ev.f) ELSE UNCHANGED files) /\ UNCHANGED <<ack, run>> /\ Keep
   \/ /\ ev.a = "append"
-     /\ (IF ev.res = "fail" THEN UNCHANGED files ELSE IoAppend(ev.f, Cell(ev)))
+     /\ (IF ev.res = "fail" \/ ev.f \notin DOMAIN files THEN UNCHANGED files ELSE IoAppend(ev.f, Cell(ev)))
      /\ UNCHANGED <<ack, run>> /\ Keep
   \/ /\ ev.a = "sync"
-     /\ (IF ev.ok THEN IoSync(ev.f) ELSE UNCHANGED files) /\ UNCHANGED <<ack, run>> /\ Keep
+     /\ (IF ev.ok /\ ev.f \in DOMAIN files THEN IoSync(ev.f) ELSE UNCHANGED files) /\ UNCHANGED <<ack, run>> /\ Keep
   \/ /\ ev.a = "ack"
      /\ IoAck(ev.w, ev.ok) /\ UNCHANGED <<files, run>> /\ Keep
      /\ IF ack[ev.w] # "sent" THEN Verdict(ev, "ack without pending write")
